@@ -32,29 +32,31 @@ import (
 var run *ev.Run
 
 type Case struct {
-	I          int
-	Len        int
-	Alg        string
-	Source     string // seek noseek dribble dribble-seek
-	Decl       string // none correct wrong-digest short long size-only digest-only
-	Chunk      int64
-	Max        int64 // host.BlobMax
-	ChunkMin   int64
-	Limit      int64  // reg.WithBlobLimit (0 = default)
-	Via        string // how the client chunk size is configured: host (per-host setting) or client (client-wide setting)
-	Enforce    bool   // the server enforces its advertised minimum on non-final chunks
-	Mount      string
-	Anon       bool // blob pre-exists in another repository and the registry grants anonymous mounts
-	Ack        []int
-	AckStyle   string
-	MaxAccept  int
-	EmptyRange string
-	Early201   bool
-	Relocate   string
-	Refuse     bool // monolithic PUT refused
-	FaultAt    int
-	Fault      string
-	Dir        bool // OCI layout destination
+	I              int
+	Len            int
+	Alg            string
+	Source         string // seek noseek dribble dribble-seek
+	Decl           string // none correct wrong-digest short long size-only digest-only
+	Chunk          int64
+	Max            int64 // host.BlobMax
+	ChunkMin       int64
+	Limit          int64  // reg.WithBlobLimit (0 = default)
+	Via            string // how the client chunk size is configured: host (per-host setting) or client (client-wide setting)
+	Enforce        bool   // the server enforces its advertised minimum on non-final chunks
+	Mount          string
+	Anon           bool // blob pre-exists in another repository and the registry grants anonymous mounts
+	Ack            []int
+	AckStyle       string
+	MaxAccept      int
+	MonoKeep       int
+	monoKeepWanted bool
+	EmptyRange     string
+	Early201       bool
+	Relocate       string
+	Refuse         bool // monolithic PUT refused
+	FaultAt        int
+	Fault          string
+	Dir            bool // OCI layout destination
 }
 
 func (c Case) key() string {
@@ -70,7 +72,7 @@ func (c Case) key() string {
 	default:
 		lenClass = ">c"
 	}
-	return fmt.Sprintf("%s|%s|%s|%s|c%d|max%d|min%d|%s/%t|ack%d%s|ma%t|er%s|e%t|%s|rf%t|f%s|dir%t|%s|enf%t", lenClass, c.Alg, c.Source, c.Decl, c.Chunk, sign(c.Max), sign(c.ChunkMin), c.Mount, c.Anon, len(c.Ack), c.AckStyle, c.MaxAccept > 0, c.EmptyRange, c.Early201, c.Relocate, c.Refuse, c.Fault, c.Dir, c.Via, c.Enforce)
+	return fmt.Sprintf("%s|%s|%s|%s|c%d|max%d|min%d|%s/%t|ack%d%s|ma%t|mk%t|er%s|e%t|%s|rf%t|f%s|dir%t|%s|enf%t", lenClass, c.Alg, c.Source, c.Decl, c.Chunk, sign(c.Max), sign(c.ChunkMin), c.Mount, c.Anon, len(c.Ack), c.AckStyle, c.MaxAccept > 0, c.MonoKeep > 0, c.EmptyRange, c.Early201, c.Relocate, c.Refuse, c.Fault, c.Dir, c.Via, c.Enforce)
 }
 
 func sign(v int64) int {
@@ -219,6 +221,14 @@ func genCase(rng *rand.Rand, i int) Case {
 		c.MaxAccept = int(c.Chunk) / (12 + rng.Intn(6))
 		c.AckStyle = []string{"202", "416"}[rng.Intn(2)]
 	}
+	if len(c.Ack) == 0 && c.MaxAccept == 0 && rng.Intn(10) == 0 && c.Len > int(c.Chunk)+1 {
+		c.monoKeepWanted = true
+	}
+	if false {
+		// the single-request upload dies in the registry after more than one chunk's worth was stored:
+		// the chunked fall-back is told to continue beyond the buffer it holds
+		c.MonoKeep = int(c.Chunk) + 1 + rng.Intn(int(c.Chunk)+1)
+	}
 	c.Early201 = rng.Intn(8) == 0
 	c.Relocate = []string{"", "", "absolute", "relative", "query", "newpath"}[rng.Intn(6)]
 	c.Refuse = rng.Intn(6) == 0
@@ -227,8 +237,13 @@ func genCase(rng *rand.Rand, i int) Case {
 		c.Fault = []string{"status:500", "status:502", "status:504", "status:429", "reset", "status:408"}[rng.Intn(6)]
 	}
 	c.Dir = rng.Intn(7) == 0
+	if c.monoKeepWanted && c.FaultAt == 0 && !c.Refuse {
+		// the single-request upload dies in the registry after more than one chunk's worth was stored:
+		// the chunked fall-back is told to continue beyond the buffer it holds
+		c.MonoKeep = int(c.Chunk) + 1 + rng.Intn(int(c.Chunk)+1)
+	}
 	// a server that enforces its minimum does not itself cut chunks short
-	c.Enforce = c.ChunkMin > 0 && len(c.Ack) == 0 && c.MaxAccept == 0 && c.FaultAt == 0 && rng.Intn(2) == 0
+	c.Enforce = c.ChunkMin > 0 && len(c.Ack) == 0 && c.MaxAccept == 0 && c.MonoKeep == 0 && c.FaultAt == 0 && rng.Intn(2) == 0
 	return c
 }
 
@@ -330,6 +345,7 @@ func runCase(c Case) {
 	h.Cfg.AckPlan = c.Ack
 	h.Cfg.AckStyle = c.AckStyle
 	h.Cfg.MaxAccept = c.MaxAccept
+	h.Cfg.MonoPutKeep = c.MonoKeep
 	h.Cfg.EmptyRange = c.EmptyRange
 	h.Cfg.Early201 = c.Early201
 	h.Cfg.Relocate = c.Relocate
@@ -376,7 +392,7 @@ func runCase(c Case) {
 	evs := w.Log()
 	if must && !seekable {
 		// a non-seekable stream cannot be replayed: any refusal / fault that arrives after bytes were consumed is a legitimate failure
-		if c.Refuse || fired {
+		if c.Refuse || fired || c.MonoKeep > 0 {
 			must, reason = false, "non-seekable source cannot be replayed"
 		}
 	}
@@ -442,6 +458,8 @@ func judge(c Case, decl, got descriptor.Descriptor, err error, actual string, co
 			switch {
 			case c.FaultAt > 0 && w != nil:
 				cls = "transient-" + strings.ReplaceAll(c.Fault, ":", "")
+			case c.MonoKeep > 0:
+				cls = "mono-put-partly-stored"
 			case c.MaxAccept > 0:
 				cls = "small-accepts-" + c.AckStyle
 			case len(c.Ack) > 0:
